@@ -156,6 +156,11 @@ def run(ctx):
         ctx.check(okc, "R01-quotient-shared-scan", f.key, f, "%s locates the element with %s(calc_quotient_remainder(obj))" % (nm, inner), "%s does not pass calc_quotient_remainder(obj) to %s" % (nm, inner))
     iiq = ctx.anchor(QF + "::insert_internal")
     if iiq is not None:
+        # the quotient filter finds an element again only if the slot bookkeeping is kept: C13's structural rules
+        from .C13 import ring_rules, swap_chain_rules, scan_rules
+        ring_rules(ctx)
+        swap_chain_rules(ctx, iiq)
+        scan_rules(ctx)
         tb = TermBuilder(iiq, prog)
         sc = [(bi, t) for bi, t in iiq.calls() if t.callee_name() == "scan"]
         oks = len(sc) == 1 and [tb.operand(x, sc[0][0], len(iiq.blocks[sc[0][0]].stmts)) for x in sc[0][1].args][1:] == [("param", 2, "quotient"), ("param", 3, "remainder"), const(True)]
